@@ -15,7 +15,7 @@ ATTRS = {
     "GMMMachine.variance_thresholds": "*", "GMMMachine._variance_thresholds": "*",
     "GMMMachine.weights": "1 [C]", "GMMMachine._weights": "1 [C]",
     "GMMMachine.log_weights": "LOG [C]", "GMMMachine._log_weights": "LOG [C]",
-    "GMMMachine.g_norms": "LOG U2d [C]", "GMMMachine._g_norms": "LOG U2d [C]",
+    "GMMMachine.g_norms": "LOG U2d c2pi [C]", "GMMMachine._g_norms": "LOG U2d c2pi [C]",
     "GMMMachine.n_gaussians": "count:C", "GMMMachine.ubm": "obj:GMMMachine",
     "GMMMachine.mean_var_update_threshold": "*", "GMMMachine.map_alpha": "*", "GMMMachine.map_relevance_factor": "*",
     "GMMMachine.update_means": "?", "GMMMachine.update_variances": "?", "GMMMachine.update_weights": "?", "GMMMachine.trainer": "?",
@@ -43,9 +43,9 @@ ATTRS = {
 }
 
 RETURNS = {
-    "gmm:log_weighted_likelihood": "LOG U-d [C,N]",
-    "gmm:log_likelihood": "LOG U-d [N]",
-    "gmm:reduce_loglikelihood": "LOG U-d [N]",
+    "gmm:log_weighted_likelihood": "LOG U-d -halfc2pi [C,N]",
+    "gmm:log_likelihood": "LOG U-d -halfc2pi [N]",
+    "gmm:reduce_loglikelihood": "LOG U-d -halfc2pi [N]",
     "kmeans:get_centroids_distance": "U2 [C,N]",
     "kmeans:e_step": "tuple:S [C]|U S [C,D]|U2 S []",
     "kmeans:m_step": "tuple:U [C,D]|U2 []",
